@@ -8,6 +8,7 @@ import (
 	"crypto/sha512"
 
 	"golang.org/x/crypto/scrypt"
+	"massnet.org/mass-wallet/config"
 	mwdb "massnet.org/mass-wallet/masswallet/db"
 	"massnet.org/mass-wallet/masswallet/keystore/snacl"
 	mdb "massnet.org/mass-wallet/zzverifmdb"
@@ -210,5 +211,29 @@ func VerifC05UnlockedOperations() {
 		rt.Assert(got == want, "revealed-mnemonic-is-the-stored-entropys")
 	}
 	rt.Assert(a.safelyCheckPassword(right) == nil && a.checkPassword(right) == nil, "right-passphrase-still-accepted-afterwards")
+	rt.Reach("end")
+}
+
+// VerifC05ChangePubPassphrase: after a successful change of the public passphrase the manager's cached passphrase - with
+// which every keystore created or imported from then on is sealed, and with which the manager must open again after a
+// restart - is exactly the new passphrase, whatever the lengths of the old and the new one. (The re-sealing of the
+// managed keystores is not covered here: the manager has none.)
+func VerifC05ChangePubPassphrase() {
+	oldP := rt.NondetBytes(rt.NondetLen(6, 9))
+	newP := rt.NondetBytes(rt.NondetLen(6, 9))
+	rt.Assume(ValidatePassphrase(oldP) && ValidatePassphrase(newP))
+	km := &KeystoreManager{managedKeystores: map[string]*AddrManager{}, params: config.ChainParams, pubPassphrase: append([]byte(nil), oldP...)}
+	db := mdb.New()
+	db.Top("km")
+	err := mwdb.Update(db, func(tx mwdb.DBTransaction) error { return km.ChangePubPassphrase(tx, oldP, newP, nil) })
+	if bytes.Equal(oldP, newP) {
+		rt.Assert(err == ErrSamePubpass, "same-passphrase-refused")
+		rt.Assert(bytes.Equal(km.pubPassphrase, oldP), "refusal-changes-nothing")
+		rt.Reach("end")
+		return
+	}
+	rt.Assert(err == nil, "change-succeeds")
+	rt.Assert(bytes.Equal(km.pubPassphrase, newP), "cached-public-passphrase-is-the-new-one")
+	rt.Reach("changed")
 	rt.Reach("end")
 }
